@@ -1077,9 +1077,21 @@ def install(rt):
     N["asyncio.events"] = {"AbstractEventLoop": Opaque("AbstractEventLoop")}
     N["asyncio.transports"] = {"BaseTransport": Opaque("BaseTransport")}
     N["socket"] = {"timeout": rt.builtin_class("TimeoutError"), "gethostbyname": Opaque("gethostbyname")}
+    def _ensure_future(i, a, k):
+        from .objects import Coroutine, Task
+        if a and isinstance(a[0], Task):
+            return a[0]
+        if not a or not isinstance(a[0], Coroutine):
+            raise Undecided("ensure_future / create_task of something that is not a coroutine object of the source")
+        t = Task(a[0])
+        i.rt.pending_tasks.append(t)
+        i.rt.used_models.add("asyncio.ensure_future/create_task: the task runs at its own await; any other await while it is pending is undecided")
+        return t
     N["asyncio"] = {"TimeoutError": rt.builtin_class("TimeoutError"),
                     "DatagramProtocol": PyClass("DatagramProtocol", [], kind="builtin"),
-                    "get_event_loop": Opaque("get_event_loop")}
+                    "get_event_loop": Opaque("get_event_loop"),
+                    "ensure_future": Builtin("asyncio.ensure_future", _ensure_future),
+                    "create_task": Builtin("asyncio.create_task", _ensure_future)}
     N["ipaddress"] = {"ip_address": Opaque("ip_address"), "IPv4Address": Opaque("IPv4Address"),
                       "IPv6Address": Opaque("IPv6Address")}
     N["hashlib"] = {"md5": Opaque("hashlib.md5"), "sha1": Opaque("hashlib.sha1")}
